@@ -21,22 +21,19 @@ open FuModel.Find.Walk
     range, nothing behind a link that is not followed), nothing twice (those paths are pairwise
     distinct: `visitsN_paths`, `pathsN_nodup`), nothing out of order. -/
 theorem C10_removed_are_visited (c : Config) (m : FuModel.Find.Expr.M Prim) (start : Bytes) (root : Node Attr) (g : GS)
-    (hpost : (refCfg c).depthFirst = true)
-    (hH : ¬ HRootLink (refCfg c) (if c.sorted then sortNode root else root)) :
+    (hpost : (refCfg c).depthFirst = true) :
     let n := if c.sorted then sortNode root else root
     ∃ L, (processDir c m start (some root) g).gs.deleted = g.deleted ++ L ∧
       L.Sublist ((visitsN (refCfg c) [] 0 n).map fun v => pathOf start v.ent.rpath) :=
-  whole_walk_deleted c m start root g hpost hH
+  whole_walk_deleted c m start root g hpost
 
 /-- non-vacuity of `C10_removed_are_visited`: `find t -delete` (post-order, no link) — the
     reference side of the statement, evaluated by the kernel -/
 example :
     let c : Config := { depthFirst := true }
     let root : Node Attr := .dir [116] false true { lty := 'd', sty := 'd' } [.leaf [97] .plain { lty := 'f', sty := 'f' }]
-    (refCfg c).depthFirst = true ∧ ¬ HRootLink (refCfg c) (if c.sorted then sortNode root else root) ∧
+    (refCfg c).depthFirst = true ∧
       (visitsN (refCfg c) [] 0 root).map (fun v => pathOf [116] v.ent.rpath) = [[116, 47, 97], [116]] := by
   intro c root
-  refine ⟨rfl, ?_, by decide⟩
-  rintro ⟨h, _⟩
-  cases h
+  exact ⟨rfl, by decide⟩
 end FuModel.Find.Run
